@@ -3,6 +3,7 @@
 //! case forms (all start with `<op> <base hex> <mode>`):
 //!   parse|parse_native|parse_repr  <text>
 //!   disp|disp_repr|lexp|lexp_repr|uexp|uexp_repr  <sig> <exp> <p0> <flags> <width|-> <prec|->
+//!   bin|oct|lhex|uhex[_repr]  <sig> <exp> <p0> <flags> <width|-> <prec|->     {:b} (base 2) {:o} (8) {:x} {:X} (2, 16)
 //!   dbg|dbg_alt|dbg_repr|dbg_repr_alt  <sig> <exp> <p0>
 //!   rt|rt_exp  <sig> <exp> <p0>                       print (no options) then FromStr
 //!   with_precision <sig> <exp> <p0> <p>
@@ -82,6 +83,48 @@ fn f_lexp(v: &dyn fmt::LowerExp, fl: &str, w: Option<usize>, p: Option<usize>) -
 }
 fn f_uexp(v: &dyn fmt::UpperExp, fl: &str, w: Option<usize>, p: Option<usize>) -> String {
     fmt_flags!(v, fl, w, p, "E")
+}
+
+fn f_bin(v: &dyn fmt::Binary, fl: &str, w: Option<usize>, p: Option<usize>) -> String {
+    fmt_flags!(v, fl, w, p, "b")
+}
+fn f_oct(v: &dyn fmt::Octal, fl: &str, w: Option<usize>, p: Option<usize>) -> String {
+    fmt_flags!(v, fl, w, p, "o")
+}
+fn f_lhex(v: &dyn fmt::LowerHex, fl: &str, w: Option<usize>, p: Option<usize>) -> String {
+    fmt_flags!(v, fl, w, p, "x")
+}
+fn f_uhex(v: &dyn fmt::UpperHex, fl: &str, w: Option<usize>, p: Option<usize>) -> String {
+    fmt_flags!(v, fl, w, p, "X")
+}
+
+/// The radix-specific formats of impl_fmt_with_base!: Binary (base 2), Octal (base 8), LowerHex / UpperHex (base 16:
+/// positional with the marker 'h'; base 2: hexadecimal form 0x1.8p3), of an FBig (mode R) or a bare Repr (`_repr`).
+fn radix<R: dashu_float::round::Round>(op: &str, a: &[&str]) -> String {
+    let b = u64::from_str_radix(a[0], 16).unwrap();
+    let (fl, w, p) = (a[5], opt(a[6]), opt(a[7]));
+    let is_repr = op.ends_with("_repr");
+    macro_rules! go {
+        ($B:literal, $f:ident) => {{
+            let repr = repr_of::<$B>(a[2], a[3]);
+            if is_repr {
+                $f(&repr, fl, w, p)
+            } else {
+                let x = FBig::<R, $B>::from_repr(repr, Context::<R>::new(usz(a[4])));
+                $f(&x, fl, w, p)
+            }
+        }};
+    }
+    let s = match (op.trim_end_matches("_repr"), b) {
+        ("bin", 2) => go!(2, f_bin),
+        ("oct", 8) => go!(8, f_oct),
+        ("lhex", 2) => go!(2, f_lhex),
+        ("lhex", 16) => go!(16, f_lhex),
+        ("uhex", 2) => go!(2, f_uhex),
+        ("uhex", 16) => go!(16, f_uhex),
+        (o, b) => panic!("no format {} for base {}", o, b),
+    };
+    format!("ok {}", tohex(&s))
 }
 
 fn perr(e: dashu_base::ParseError) -> String {
@@ -212,6 +255,17 @@ fn run(op: &str, a: &[&str]) -> String {
                 let v = FBig::<R, B>::from_parts_const(if neg { dashu_base::Sign::Negative } else { dashu_base::Sign::Positive }, mag, e, mp);
                 format!("ok {}", hval(&v))
             });
+        }
+        "bin" | "oct" | "lhex" | "uhex" | "bin_repr" | "oct_repr" | "lhex_repr" | "uhex_repr" => {
+            return match a[1] {
+                "Zero" => radix::<mode::Zero>(op, a),
+                "Away" => radix::<mode::Away>(op, a),
+                "Up" => radix::<mode::Up>(op, a),
+                "Down" => radix::<mode::Down>(op, a),
+                "HalfEven" => radix::<mode::HalfEven>(op, a),
+                "HalfAway" => radix::<mode::HalfAway>(op, a),
+                other => panic!("unknown mode {}", other),
+            };
         }
         "with_base" | "with_base_prec" | "to_decimal" | "to_binary" | "wb_prec" => {
             return match a[1] {
